@@ -54,10 +54,16 @@ def monitor(sc, obs):
             args, kws = call[3], call[4]
         else:
             args, kws = a[2], a[3]
+        sig_tag = None
+        posonly = {p[0] for p in f['sig'] if p[1] == 'PosOnly'}
+        if any(n in posonly for n, _ in kws) and any(p[1] == 'VarKw' for p in f['sig']):
+            sig_tag = 'posonly_name_as_keyword'
+        if any(n == 'result' for n, _ in kws) and any([p[0] for p in v['sig']] == ['_'] for v in pres):
+            sig_tag = 'keyword_named_result'
         b = pyeval.own_binding(f['sig'], args, kws)
         if b is None:
             if not (act.kind == 'X' and act.exc_class == 'TypeError') or act.bodies():
-                out.append((f'call that the function itself rejects (TypeError) gave {act.outcome!r}, bodies={act.bodies()}', None))
+                out.append((f'call that the function itself rejects (TypeError) gave {act.outcome!r}, bodies={act.bodies()}', sig_tag))
             continue
         expect_body, expect_exc, ran = True, None, []
         for v in pres:
@@ -68,12 +74,6 @@ def monitor(sc, obs):
             expect_body = False
             expect_exc = (configured(v, 'PreContractError') if r[0] == 'reject' else r[1])
             break
-        sig_tag = None
-        posonly = {p[0] for p in f['sig'] if p[1] == 'PosOnly'}
-        if any(n in posonly for n, _ in kws) and any(p[1] == 'VarKw' for p in f['sig']):
-            sig_tag = 'posonly_name_as_keyword'
-        if any(n == 'result' for n, _ in kws) and any([p[0] for p in v['sig']] == ['_'] for v in pres):
-            sig_tag = 'keyword_named_result'
         if expect_body:
             want = 'B f ' + pyeval.show_dict(b)
             if act.bodies() != [want]:
